@@ -51,12 +51,16 @@ OfKind(cs, k) == SelectBy(cs, LAMBDA c : c.k = k)
 (* ---- classification of a difference between recorded (rec) and model (want) calls ---- *)
 (* documented, independent of any model state: a logger never exists without annotations *)
 UnannotatedLogger(rec) == \E i \in DOMAIN rec : rec[i].k = "NewLogger" /\ rec[i].info.ann = <<>>
+(* documented ("make sure this access doesn't get logged as key export", "purposely not using entry.Key()"):    *)
+(* only the exporting accessors ever log a key export                                                            *)
+StrayExport(rec) == \E i \in DOMAIN rec : rec[i].k = "Export"
 
 Differs(kind, want) == <<"MODEL: " \o kind, ToString(want)>>
 
 JudgeSetup(e, rec, want, what) ==
   IF rec = want THEN <<>>
   ELSE IF UnannotatedLogger(rec) THEN <<"DOC: a logger is created for a handle without annotations (" \o what \o ")", ToString(want)>>
+  ELSE IF StrayExport(rec) THEN <<"DOC: a key export is logged by a step that hands no key to the caller (" \o what \o ")", ToString(want)>>
   ELSE Differs("the client calls of " \o what \o " differ from Monitoring.tla", want)
 
 JudgeCall(e, p, rec, want) ==
@@ -65,6 +69,7 @@ JudgeCall(e, p, rec, want) ==
       lg    == p.lgs[FnIndex(p.cls, e.op)]
       who   == p.cls \o "." \o e.op
   IN IF rec = want THEN <<>>
+     ELSE IF StrayExport(rec) THEN <<"DOC: " \o who \o ": a key export is logged by an operation of a primitive", ToString(want)>>
      ELSE IF p.lgs = <<>> THEN Differs(who \o ": client calls from a primitive the model has no logger for", want)
      ELSE IF e.ok /\ Len(fails) > 0 THEN <<"DOC: " \o who \o ": a successful call logs a failure", ToString(want)>>
      ELSE IF e.ok /\ Len(logs) # 1 THEN <<"DOC: " \o who \o ": a successful call must log exactly one success", ToString(want)>>
